@@ -119,6 +119,13 @@ Theorem C02_deserialize_consistent : forall sha1 raw mi, deserialize sha1 raw = 
 Proof. exact Proof.C02_json.deserialize_consistent. Qed.
 Print Assumptions C02_deserialize_consistent.
 
+(* whatever DeserializeMetaInfo accepts (generated or foreign) survives Serialize +
+   DeserializeMetaInfo unchanged: info hash, digest, length, piece length, piece sums *)
+Theorem C02_reserialize_stable : forall sha1 raw mi, deserialize sha1 raw = Ok mi ->
+  deserialize sha1 (serialize mi) = Ok mi.
+Proof. exact Proof.C02_json.reserialize_stable. Qed.
+Print Assumptions C02_reserialize_stable.
+
 (* the guard valid_name is needed: metainfo built for the zero Digest{} (empty name)
    serialises but does not parse back (seed case seed-zero-digest) *)
 Theorem C02_roundtrip_zero_digest_refuted : exists data pl,
@@ -166,12 +173,12 @@ Print Assumptions C02_generate.
 
 (* ---- executable form used on observed traces ------------------------------------------- *)
 Theorem C02_check_sound : forall sum sha1, (forall b, sum b < 4294967296) ->
-  forall c, C02_check sum c (case_model sum sha1 c) = true.
+  forall c, C02_check sum sha1 c (case_model sum sha1 c) = true.
 Proof. exact Proof.C02_check.check_sound. Qed.
 Print Assumptions C02_check_sound.
 
 (* ... and for the instance the correspondence check executes, without hypotheses *)
-Theorem C02_check_sound_crc32 : forall c, C02_check crc32 c (case_model crc32 sha1_bytes c) = true.
+Theorem C02_check_sound_crc32 : forall c, C02_check crc32 sha1_bytes c (case_model crc32 sha1_bytes c) = true.
 Proof. exact Proof.C02_check.check_sound_crc32. Qed.
 Print Assumptions C02_check_sound_crc32.
 
@@ -182,7 +189,6 @@ Proof. exact Proof.C02_json.crc_update_app. Qed.
 Print Assumptions C02_crc32_streams.
 
 (* ---- non-vacuity ----------------------------------------------------------------------- *)
-Definition ex_name := codes "2cf24dba5fb0a30e26e83b2ac5b9e29e1b161e5c1fa7425e73043362938b9824".
 
 (* 11 bytes in pieces of 4: lengths 4,4,3; stream cut as 2+0+7+2 agrees; round trip identity *)
 Example C02_nonvacuous_layout :
